@@ -3,7 +3,8 @@
    ([inv], [content], [terminated], [op_ok], [spec_ok], [step_refines], [step_terminates],
    [steps] = every (state, op, result) triple of a history).  Proofs: C06/StrProofs.v. *)
 From Coq Require Import NArith ZArith List Bool.
-From LibaV Require Import C06.StrDefs C06.StrSpec C06.StrProofs C06.StrBig.
+From LibaV Require Import C06.StrDefs C06.StrSpec C06.StrProofs C06.StrBig C06.StrAccDefs C06.StrAccProofs.
+From LibaV Require C18.UtfDefs.
 Import ListNotations.
 Local Open Scope N_scope.
 
@@ -153,3 +154,35 @@ Theorem cmp_length_tie_break_any_size : forall a n m, (forall x, In x (take n a)
   cmpn_zeros (mkStr (Some a) n (len a)) m = Some (lencmp n m).
 Proof. exact cmpn_zeros_prefix. Qed.
 Print Assumptions cmp_length_tie_break_any_size.
+
+(* The read-only accessors of str.h (model: C06/StrAccDefs.v, printed by both drivers after every operation as the
+   `q=` token) on any object satisfying the invariant, hence after every operation of every history (str_inv):
+   a_str_len / a_str_mem / a_str_ptr return the fields; a_str_at_ (precondition idx < mem_) and a_str_at give the
+   address of byte idx of the block, a_str_at gives NULL from mem_ on; a_str_of counts non-negative indices from the
+   start and negative ones from the end of the content (-1 = last byte) and gives NULL outside -num_ .. mem_ - 1.
+   No case is undefined pointer arithmetic ([AFault]). *)
+Theorem str_accessors :
+  forall s, inv s ->
+  str_len s = num s /\ str_mem s = mem s /\
+  str_ptr s = match ptr s with Some _ => AOff 0 | None => ANull end /\
+  (forall idx, idx < mem s -> str_at_ s idx = AOff idx) /\
+  (forall idx, str_at s idx = if idx <? mem s then AOff idx else ANull) /\
+  (forall idx, (- 9223372036854775808 <= idx < 9223372036854775808)%Z ->
+               mem s <= 9223372036854775808 ->
+     str_of s idx =
+       if (0 <=? idx)%Z then (if Z.to_N idx <? mem s then AOff (Z.to_N idx) else ANull)
+       else if (- Z.of_N (num s) <=? idx)%Z then AOff (Z.to_N (Z.of_N (num s) + idx))
+            else ANull).
+Proof. exact accessors_all. Qed.
+Print Assumptions str_accessors.
+
+(* a_utf_len(ctx, stop) never reads outside the content and returns the number c of positive lengths the UTF-8
+   decoder reports from the start of the content before it first reports 0 (end, NUL or undecodable byte), storing
+   their sum k <= num_ in *stop when stop is not NULL (walk: coq/C18/UtfDefs.v). *)
+Theorem utf_len_walks_the_content :
+  forall s w, inv s -> UtfDefs.bytes_ok (buf s) ->
+  exists c k,
+    utf_len s w = UtfDefs.NRet c (if w then Some k else None) /\
+    UtfDefs.walk (buf s) (num s) c k /\ k <= num s /\ c <= k.
+Proof. exact utf_len_inv. Qed.
+Print Assumptions utf_len_walks_the_content.
